@@ -202,3 +202,34 @@ func ParseB(line, tag string) (string, bool) {
 	}
 	return s, true
 }
+
+// RunApalache runs `apalache-mc check` on a module of /verif/spec in a scratch directory. It returns "ok" (no error up to
+// the given length), "violated" (an invariant is refuted) or an error (anything else: tool trouble, timeout).
+func RunApalache(module string, timeout time.Duration, args ...string) (string, error) {
+	dir, err := os.MkdirTemp("", "vapa-")
+	if err != nil {
+		return "", err
+	}
+	defer os.RemoveAll(dir)
+	data, err := os.ReadFile(filepath.Join(VerifDir, "spec", module+".tla"))
+	if err != nil {
+		return "", err
+	}
+	os.WriteFile(filepath.Join(dir, module+".tla"), data, 0o644)
+	ctx, cancel := context.WithTimeout(context.Background(), timeout)
+	defer cancel()
+	cmd := exec.CommandContext(ctx, "apalache-mc", append(append([]string{"check", "--out-dir=" + filepath.Join(dir, "out")}, args...), module+".tla")...)
+	cmd.Dir = dir
+	out, _ := cmd.CombinedOutput()
+	text := string(out)
+	switch {
+	case strings.Contains(text, "EXITCODE: OK") && strings.Contains(text, "The outcome is: NoError"):
+		return "ok", nil
+	case strings.Contains(text, "The outcome is: Error") && strings.Contains(text, "violated"):
+		return "violated", nil
+	}
+	if len(text) > 600 {
+		text = text[len(text)-600:]
+	}
+	return "", fmt.Errorf("apalache-mc %v on %s: %s", args, module, text)
+}
